@@ -355,13 +355,27 @@ def run(ctx):
             ("int32 log_e_nu", np.radians(np.full(4, 5.0)), np.array([9, 10, 11, 12], dtype=np.int32), np.full(4, 0.5)),
             ("float32 beta and energy", np.radians(np.array([2.0, 11.0, 33.0])).astype(np.float32), np.array([6.5, 9.25, 11.75], dtype=np.float32), np.array([0.3, 0.6, 0.05])),
             ("Python lists", [0.05, 0.3], [7.5, 10.0], [0.25, 0.75]),
+            # every operand in single / half precision (values exactly representable): the sampler's own
+            # result buffer must not follow them
+            ("float32 beta, energy and u", np.array([0.0625, 0.6875, 0.25], dtype=np.float32), np.array([6.0, 12.0, 9.5], dtype=np.float32), np.array([0.5, 0.375, 0.125], dtype=np.float32)),
+            ("float16 beta, energy and u", np.array([0.0625, 0.6875, 0.25], dtype=np.float16), np.array([6.0, 12.0, 9.5], dtype=np.float16), np.array([0.5, 0.375, 2.0**-10], dtype=np.float16)),
         ]
         for nm, b_, e_, u_ in cases_dt:
+            if "float" in nm and "u" in nm.split()[-1:]:
+                # the sampler boundary as well
+                ctx.count("dtype")
+                try:
+                    zg = np.asarray(sampler(np.asarray(e_), np.asarray(b_), np.asarray(u_)), dtype=np.float64)
+                    zw = np.asarray(sampler(np.asarray(e_, dtype=np.float64), np.asarray(b_, dtype=np.float64), np.asarray(u_, dtype=np.float64)))
+                    if not (zg.shape == zw.shape and np.all(np.abs(zg - zw) <= 1e-12 * np.abs(zw))):
+                        ctx.violation("dtype", f"table v{version}: grid_cdf_sampler with {nm} gives z = {zg.tolist()}; the same numbers as float64 give {zw.tolist()}", {"version": version, "case": nm, "direct": True})
+                except Exception as e:
+                    ctx.exception("dtype", f"table v{version}: grid_cdf_sampler with {nm} raised", e, {"version": version, "case": nm})
             ctx.count("dtype")
             try:
                 got_ = np.asarray(tau.tau_energy(np.asarray(b_), np.asarray(e_), np.asarray(u_)), dtype=np.float64)
                 want_ = np.asarray(tau.tau_energy(np.asarray(b_, dtype=np.float64), np.asarray(e_, dtype=np.float64), np.asarray(u_, dtype=np.float64)))
-                if not (got_.shape == want_.shape and np.all(np.abs(got_ - want_) <= 1e-6 * np.abs(want_))):
+                if not (got_.shape == want_.shape and np.all(np.abs(got_ - want_) <= 1e-12 * np.abs(want_))):
                     ctx.violation("dtype", f"table v{version}: tau_energy with {nm} gives {got_.tolist()}; the same numbers as float64 give {want_.tolist()}", {"version": version, "case": nm})
             except Exception as e:
                 ctx.exception("dtype", f"table v{version}: tau_energy with {nm} raised", e, {"version": version, "case": nm})
